@@ -30,22 +30,36 @@ Fixpoint first_field (s : str) : str :=
   | c :: t => if c =? 44 then [] else c :: first_field t
   end.
 
-Fixpoint mem_str (x : str) (l : list str) : bool :=
-  match l with [] => false | y :: r => str_eqb x y || mem_str x r end.
+(* request.remote.ip is a str, or None for a peer without an address (wrappers.Request; the value is
+   recorded from the real constructor in the correspondence run).  f'{ip}' as sessions.who() formats it: *)
+Definition ip_text (a : option str) : str :=
+  match a with Some h => h | None => [78; 111; 110; 101] end.
 
-Record vreq := { remote_ip : str;
+(* a == b on str-or-None *)
+Definition addr_eqb (a b : option str) : bool :=
+  match a, b with
+  | None, None => true
+  | Some x, Some y => str_eqb x y
+  | _, _ => false
+  end.
+
+(* `remote in gateways`: the list may name None itself (an address-less peer) *)
+Fixpoint mem_addr (x : option str) (l : list (option str)) : bool :=
+  match l with [] => false | y :: r => addr_eqb x y || mem_addr x r end.
+
+Record vreq := { remote_ip : option str;   (* request.remote.ip: None for a peer without address *)
                  host : str;        (* Host header, '' if absent *)
                  xfh : str;         (* X-Forwarded-Host header, '' if absent *)
                  path : str }.
 
 (* trusted_gateways=None : no restriction configured *)
-Definition trusted (tg : option (list str)) (r : vreq) : bool :=
-  match tg with None => true | Some l => mem_str (remote_ip r) l end.
+Definition trusted (tg : option (list (option str))) (r : vreq) : bool :=
+  match tg with None => true | Some l => mem_addr (remote_ip r) l end.
 
 Definition forwarded (r : vreq) : str := lower (strip is_ws (first_field (xfh r))).
 
 (* the domain looked up in [domains] *)
-Definition domain (tg : option (list str)) (r : vreq) : str :=
+Definition domain (tg : option (list (option str))) (r : vreq) : str :=
   if trusted tg r then
     match forwarded r with [] => host r | f => f end
   else host r.
@@ -54,7 +68,7 @@ Section VHost.
   Variable urljoin : str -> str -> str.
 
   (* request.path after the handler *)
-  Definition on_request (domains : list (str * str)) (tg : option (list str)) (r : vreq) : str :=
+  Definition on_request (domains : list (str * str)) (tg : option (list (option str))) (r : vreq) : str :=
     match lookup (domain tg r) domains with
     | None | Some [] => path r
     | Some prefix => urljoin (SLASH_ :: prefix ++ [SLASH_]) (strip (N.eqb SLASH_) (path r))
